@@ -12,6 +12,7 @@ Correspondence, per generated (dataset, query):
   - `execute_sparql_query` with a stale statistics cache must give the Spec's answer.
 """
 import json
+import re
 
 import c01 as C1
 import c01_lib as L
@@ -141,6 +142,21 @@ def gen_cases(ctx, n):
     return cases, ops
 
 
+# spelling of the model's variables in the keys: `?name` (the code keeps the sigil as typed; `$name` is normalised to `?name` on
+# both sides before comparing, which identifies the two spellings of one variable - a constant with that shape is read as a
+# variable by the engine anyway)
+NAMES = L.clist("(%s, %s)" % (L.cv(v), L.cs("?" + v)) for v in list(L.VNUM) + ["x%d" % i for i in range(10)] + ["y%d" % i for i in range(10)])
+_DOLLAR = re.compile(r'(?<=["( ])\$(?=[A-Za-z0-9_])')
+
+
+def norm_key(k):
+    return _DOLLAR.sub("?", k)
+
+
+def dict_is_injective(d):
+    return len(set(x for x, _ in d)) == len(d) == len(set(i for _, i in d))
+
+
 def driver_case(c):
     return {k: c[k] for k in ("ds_before", "ds_update", "query", "kinds", "max_assign", "seed")}
 
@@ -173,11 +189,13 @@ def evaluate(ctx, binpath, cases, stream, threads, coq=True, known_seen=None):
                 lg = L.jlop(im["logical"])
                 c["vkinds"] = [k for k in c["kinds"] if isinstance(im["plans"][k], list)]
                 plans = [L.jpop(im["plans"][k]) for k in c["vkinds"]]
-                exprs.append("(Some (lop_eqb (lower_query (q_sel %s)) %s, %s), %s)" % (
-                    qq, lg, L.clist("implements_run %s %s" % (qq, p) for p in plans), spec_expr))
+                dict_expr = L.clist("(%s, %d%%N)" % (L.cs(lexical), ident) for lexical, ident in im.get("dict", []))
+                real_expr = L.clist(L.cs(norm_key(k)) for k in im.get("memo_keys", []))
+                exprs.append("(Some (lop_eqb (lower_query (q_sel %s)) %s, %s), %s, memo_check_run %s %s %s %s)" % (
+                    qq, lg, L.clist("implements_run %s %s" % (qq, p) for p in plans), spec_expr, NAMES, dict_expr, lg, real_expr))
             except (KeyError, TypeError, L.Unsupported) as ex:
                 c["model"] = "no plan to validate: %s" % (ex,)
-                exprs.append("(@None (bool * list bool), %s)" % spec_expr)
+                exprs.append("(@None (bool * list bool), %s, @nil (option bool))" % spec_expr)
         ctx.log("%s: implementation done (%d thread-pool sizes), validating %d cases in Coq" % (stream, len(threads), len(exprs)))
         coqv = C1.run_model_retry(ctx, exprs, REQ + ["KV.Sparql.Lowering", "KV.Sparql.PlanEquiv"])
     st = {"cases": len(cases), "executions": 0, "rewritten_join_nodes": 0, "plans_validated": 0, "plan_dependent_known": 0,
@@ -203,7 +221,23 @@ def evaluate(ctx, binpath, cases, stream, threads, coq=True, known_seen=None):
             if isinstance(cv, tuple) and cv and cv[0] == "ERROR":
                 ctx.broken("correspondence", stream, "Coq evaluation failed: %s" % (cv[1],), {"query": c["query"]})
                 continue
-            opt, cs_rows = cv
+            opt, cs_rows, model_keys = cv
+            # the model of create_memo_key (coq/Sparql/MemoKeyPlan.v) against the keys of the real optimizer's plan cache
+            if "memo_keys" in im and dict_is_injective(im.get("dict", [])):
+                for node, found in enumerate(model_keys):
+                    if found is None:
+                        st["memo_nodes_not_compared"] = st.get("memo_nodes_not_compared", 0) + 1
+                        continue
+                    st["memo_keys_compared"] = st.get("memo_keys_compared", 0) + 1
+                    if not found[1]:              # Coq's `Some b` is parsed as ("Some", b)
+                        ctx.broken("correspondence", stream + ":memo-key",
+                                   "keyed node %d (pre-order) of the logical plan has no variant whose modelled key (coq/Sparql/MemoKeyPlan.v: plan_key) "
+                                   "occurs in the real optimizer's memo: the model of serialize_logical_plan is not what the code writes" % node,
+                                   dict(case_out, impl_logical=im.get("logical"), real_keys=sorted(im.get("memo_keys", []))[:40]))
+                        break
+            elif "memo_keys" in im:
+                ctx.broken("correspondence", stream + ":memo-key", "the dictionary ids of the plan's constants are not an injective map of their lexical forms",
+                           dict(case_out, dict=im.get("dict")))
             csols = L.from_coq_mus(cs_rows) if not c.get("big") else spec_sols     # big cases: Python transliteration only
             if not L.mus_equal(csols, spec_sols):
                 ctx.broken("correspondence", stream + ":python-transliteration", "the Python transliteration of the Spec disagrees with coq/Sparql/Algebra.v (pattern solutions)",
@@ -399,6 +433,10 @@ def run(ctx):
             "hand-written Gallina model: coq/Sparql/PlanEquiv.v (the relation of plans the optimizer may emit, cost model deliberately not modelled), coq/Sparql/Engine.v (the three join executors, the engine)",
             "correspondence check: harness/src/bin/c02.rs (public API only: Streamertail::find_best_plan, PhysicalOperator constructors, ExecutionEngine::execute_with_ids_and_dataset, DatabaseStats fields, cached_stats), checks/c02.py",
             "rayon (par_iter ordered collect, par_chunks) preserving order for every pool size is a runtime fact: tested with RAYON_NUM_THREADS in {1,2,4,16}, not proved (partial on schedules)",
+            "plan-cache key: coq/Sparql/MemoKeyPlan.v models create_memo_key / serialize_logical_plan for every logical operator of the fragment and is proved "
+            "injective (C02_memo_key_injective_plan); per case the modelled key of every keyed node of the logical plan (all permutations of its scan groups) "
+            "is looked up in the real optimizer's memo (Streamertail::memo, a public field; memo_keys_compared per stream); variable spellings `$x` / `?x` are "
+            "identified before comparing; dictionary ids are read from the driver and checked to be an injective map",
         ],
         assumptions=["the supported fragment of C01 (see evidence/C01.json)", "queries inside C01's plan-independent classes are compared between plans only, not with the Spec"])
 
